@@ -15,4 +15,10 @@ def obligations(tier):
     F = [("??", 2, 2, 2, 3), ("[1,\"?\"]", 3, 3, 1, 6), (" {\"?\":[?]} 3", 4, 3, 1, 8), ("1{\"a?\":?", 8, 2, 2, 4)]
     for i, (t, c, k, sr, mf) in enumerate(F):
         L.append(ob("fault/t%d/cap=%d/calls=%d/symreads=%d/faultAt<=%d" % (i, c, k, sr, mf), "jsontext", "VerifC05Fault", [t, c, k, sr, mf], covers=["end", "fault-seen"]))
+    ST = ['"??"', '"\\u????"', '"\\uD8??\\uDC??"', '"\\ud83d\\ud???"', '"?\\??"'] if q else ['"??"', '"???"', '"\\u????"', '"\\uD8??\\uDC??"', '"\\ud83d\\ud???"', '"\\uD???\\u????"', '"?\\??"', '"\\u00??\\?"']
+    for i, t in enumerate(ST):
+        for v in (False, True):
+            L.append(ob("resumeS/t%d/validate=%d" % (i, v), "internal/jsonwire", "VerifC05ResumeString", [t, v], covers=["resumed"], max_seconds=600))
+    for i, t in enumerate(['????', '-?.?e?', '0???', '1e+??'] if q else ['????', '?????', '-?.?e?', '0???', '1e+??', '-0.?e-?']):
+        L.append(ob("resumeN/t%d" % i, "internal/jsonwire", "VerifC05ResumeNumber", [t], covers=["resumed"], max_seconds=600))
     return L
